@@ -189,18 +189,61 @@ def sweeps(tier, rng):
                     v = m.interpolateFromDeltas(loc, rd) or 0
                     if abs(float(v) - float(masters[k])) > 0.5 + 1e-9: bad = "rounded deltas reproduce master %d as %r (true %r)" % (k, float(v), float(masters[k])); break
             yield (("model", locs), bad)
+    def run_model_history():
+        """ONE model object used over a history of sparse (None-containing) master lists and reorderMasters calls answers every
+        request like a model freshly built for the current master order"""
+        from fontTools.varLib.models import supportScalar
+        for i in range(max(40, n // 3)):
+            axes, locs = _rand_locations(rng, rng.randint(1, 3))
+            if len(locs) < 3: continue
+            try: m = models.VariationModel(locs, axisOrder=axes)
+            except Exception: continue
+            cur = list(locs); bad = None; hist = []
+            dflt = lambda L: next(j for j, l in enumerate(L) if not any(l.values()))
+            pats = []
+            for step in range(rng.randint(3, 7)):
+                if rng.chance(35) and step > 0:
+                    mp = list(range(len(cur))); rng.shuffle(mp)
+                    m.reorderMasters(list(cur), mp); cur = [cur[j] for j in mp]; hist.append(("reorder", mp)); continue
+                vals = [F(rng.randint(-1000, 1000)) for _ in cur]
+                # a sparse list: some non-default masters missing; positional patterns are reused across the history
+                if pats and rng.chance(50): pat = rng.choice(pats)
+                else:
+                    pat = [rng.chance(65) for _ in cur]; pats.append(pat)
+                items = [v if (keep or j == dflt(cur)) else None for j, (v, keep) in enumerate(zip(vals, pat))]
+                hist.append(("deltas", [None if v is None else int(v) for v in items]))
+                try:
+                    deltas, supports = m.getDeltasAndSupports(items)
+                    fresh = models.VariationModel(list(cur), axisOrder=axes)
+                    d2, s2 = fresh.getDeltasAndSupports(items)
+                    if [float(x) for x in deltas] != [float(x) for x in d2] or supports != s2:
+                        bad = "after %r the model answers %r / %r, a fresh model for the same masters %r / %r" % (hist, [float(x) for x in deltas], supports, [float(x) for x in d2], s2); break
+                    for j, (loc, v) in enumerate(zip(cur, items)):
+                        if v is None: continue
+                        got = sum(float(d) * float(supportScalar(loc, sup)) for d, sup in zip(deltas, supports))
+                        if abs(got - float(v)) > 1e-7: bad = "after %r master %d (%r) is reproduced as %r instead of %r" % (hist, j, loc, got, float(v)); break
+                    if bad: break
+                except Exception as e:
+                    bad = "history %r raised %r" % (hist, e); break
+            yield (("model-history", locs, hist), bad)
     def run_iup():
         for i in range(n):
             k = rng.randint(1, 9)
-            fam = rng.below(4)
+            fam = rng.below(6)
             coords = [(rng.randint(-10, 10), rng.randint(-10, 10)) for _ in range(k)]
             if fam == 0: deltas = [(rng.randint(-3, 3), rng.randint(-3, 3)) for _ in range(k)]
             elif fam == 1: deltas = [(rng.choice([-1, 1]), rng.choice([-1, 1])) for _ in range(k)]
             elif fam == 2:
                 d0 = (rng.randint(-5, 5), rng.randint(-5, 5)); deltas = [d0 if rng.chance(70) else (d0[0] + 1, d0[1]) for _ in range(k)]
-            else: deltas = [(c[0] // 2 + rng.choice([0, 0, 1]), c[1] // 3) for c in coords]
+            elif fam == 3: deltas = [(c[0] // 2 + rng.choice([0, 0, 1]), c[1] // 3) for c in coords]
+            elif fam == 4:
+                # small deltas clustered near (but not at) zero: the "nothing needs encoding" / "all the same" shortcuts are nearby
+                d0 = (rng.randint(-2, 2), rng.randint(-2, 2)); deltas = [(d0[0] + rng.randint(-1, 1), d0[1] + rng.randint(-1, 1)) for _ in range(k)]
+            else:
+                # fractional deltas (unrounded master differences)
+                d0 = (rng.randint(-6, 6) / 4, rng.randint(-6, 6) / 4); deltas = [(d0[0] + rng.randint(-2, 2) / 4, d0[1] + rng.randint(-2, 2) / 4) for _ in range(k)]
             ends = sorted(set([k - 1] + ([rng.randint(0, k - 1)] if k > 2 and rng.chance(40) else [])))
-            tol = rng.choice([0, 0, 0.5, 1])
+            tol = rng.choice([0, 0, 0.5, 1]) if fam < 4 else rng.choice([0.5, 1, 1, 2])
             phantom = [(0, 0)] * 4
             allc = coords + phantom; alld = deltas + [(0, 0)] * 4
             allends = ends
@@ -260,6 +303,6 @@ def sweeps(tier, rng):
                 for v, b in zip(idxs, B):
                     if v in used and abs(inst[m3[v]] - b) > 1e-6 and bad is None: bad = "subset_varidxes/prune_regions changed a retained value (%r -> %r)" % (b, inst[m3[v]])
             yield (("varstore", locs, len(idxs)), bad)
-    return [Sweep("variation-model", run_models), Sweep("iup", run_iup), Sweep("varstore", run_store)]
+    return [Sweep("variation-model", run_models), Sweep("variation-model-history", run_model_history), Sweep("iup", run_iup), Sweep("varstore", run_store)]
 
 def witness(fid): return None
